@@ -111,7 +111,7 @@ func (c *fnCtx) callStmt(ind int, x *ast.CallExpr) []string {
 
 // copyStmt: `copy(dst, src)` with its result discarded. dst is an assignable slice-valued operand (`p`, `p[i]`) or a slice
 // `p[lo:hi]` of one; the elements written are elements of p, so p must be a slice the pointee of a pointer parameter owns
-// (checked by assignTo → ownedSlice) or a local. src is evaluated first, as it is before the call (Go's copy is a memmove).
+// (checked by assignTo → ownedSlice). src is evaluated first, as it is before the call (Go's copy is a memmove).
 func (c *fnCtx) copyStmt(ind int, x *ast.CallExpr) {
 	dst, src := unparen(x.Args[0]), x.Args[1]
 	if _, ok := c.info.TypeOf(src).Underlying().(*types.Slice); !ok {
@@ -149,10 +149,8 @@ func (c *fnCtx) copyStmt(ind int, x *ast.CallExpr) {
 func (c *fnCtx) writeElems(ind int, p ast.Expr, val string) {
 	switch q := unparen(p).(type) {
 	case *ast.Ident:
-		obj := c.info.Uses[q]
-		if _, isLocal := c.names[obj]; !isLocal || c.ptrs[obj] || c.isParam(obj) {
-			c.fail(p, "copy into the slice %s, which the function does not own (its elements may be shared)", q.Name)
-		}
+		// a slice variable (parameter or local) may share its elements with another slice: value semantics would be wrong
+		c.fail(p, "copy into the slice variable %s (its elements may be shared with another slice)", q.Name)
 	case *ast.IndexExpr:
 		// an element (itself a slice) of a slice: the outer slice must be owned; assignTo checks it
 	default:
@@ -161,15 +159,6 @@ func (c *fnCtx) writeElems(ind int, p ast.Expr, val string) {
 		}
 	}
 	c.assignTo(ind, p, val, false, true)
-}
-
-func (c *fnCtx) isParam(obj types.Object) bool {
-	for _, q := range c.params {
-		if q == obj {
-			return true
-		}
-	}
-	return false
 }
 
 // assignTo: lhs = val. define: `:=` (new variables are declared). internal: write-back through a pointer parameter.
